@@ -143,6 +143,41 @@ def suite_recv(ctx):
                     f'{together.tolist()}, one by one {alone.tolist()}',
                     {'azimuth': az, 'elevation': el, 'method': method,
                      'shape': grid.shape_cells})
+        # point sources in the outermost cells (where receivers give NaN) are
+        # legal: a vector comes back and it carries the unit moment
+        for q in range(3):
+            pos_o = []
+            for d_, nodes in enumerate((grid.nodes_x, grid.nodes_y,
+                                        grid.nodes_z)):
+                lo = (q + d_) % 3
+                if lo == 0:      # first cell
+                    pos_o.append(float(nodes[0] + (nodes[1]-nodes[0]) *
+                                       rng.uniform(0.05, 0.95)))
+                elif lo == 1:    # last cell
+                    pos_o.append(float(nodes[-2] + (nodes[-1]-nodes[-2]) *
+                                       rng.uniform(0.05, 0.95)))
+                else:
+                    pos_o.append(float(nodes[1] + (nodes[-2]-nodes[1]) *
+                                       rng.uniform(0.05, 0.95)))
+            try:
+                with warnings.catch_warnings():
+                    warnings.simplefilter('ignore')
+                    pvo = fields._point_vector(grid, (*pos_o, az[0], el[0]))
+                dd = electrodes.rotation(az[0], el[0])
+                mom = np.array([pvo.fx.sum(), pvo.fy.sum(), pvo.fz.sum()])
+                oko = np.allclose(mom.real, dd, rtol=0, atol=1e-12) and \
+                    np.allclose(mom.imag, 0, atol=1e-12)
+                deto = f'moment {mom.tolist()}, direction {list(dd)}'
+            except Exception as e:      # noqa
+                oko, deto = False, f'{type(e).__name__}: {e}'
+            if not oko:
+                batch_bad.append(('outer-cell source', pos_o))
+                ctx.violation(
+                    'point-source-in-outermost-cell',
+                    f'_point_vector for a point source at {pos_o} (inside '
+                    f'the grid, in an outermost cell): {deto}',
+                    {'position': pos_o, 'azimuth': az[0],
+                     'elevation': el[0], 'shape': grid.shape_cells})
         # a receiver carpet: coordinates with more than one dimension
         # (x[:, None], y[None, :]) of a non-square layout, some positions in
         # the outermost cells (NaN)
